@@ -74,7 +74,7 @@ func sysModulePeek(mode string, cfg sys.Config, maxRPC, maxStims int, kinds []st
 	return name, mod, c
 }
 
-var allStimKinds = []string{"start", "hstep", "relw", "deliver", "cancel", "cancelsrv", "close", "fault", "relu", "point"}
+var allStimKinds = []string{"start", "hstep", "relw", "relwerr", "deliver", "cancel", "cancelsrv", "close", "fault", "relu", "point"}
 
 // sysGen asks TLC for realisable stimulus sequences (simulation of System.tla with Gen = TRUE).
 func sysGen(c *vf.Ctx, cfg sys.Config, maxRPC, maxStims int, kinds []string, nsim int, seed int64, fn func([]sys.Stim)) {
